@@ -11,7 +11,7 @@
     - [find_rule]: the index lookup, then the default rule or "no rule".
 
     Definitions only. *)
-From HV Require Import Base.Prelude Radix.Spec Radix.Machine Radix.Load.
+From HV Require Import Base.Prelude Radix.Spec Radix.Machine Radix.Load Radix.Tree.
 
 (** (rule id, rule-set id) *)
 Definition rval : Type := (nat * nat)%type.
@@ -72,3 +72,26 @@ Definition find_rule (faithful : bool) (d : db rval) (has_default : bool) (path 
 (** what the property demands *)
 Definition spec_find_rule (d : db rval) (has_default : bool) (path : str) (m : matcher rval) : outcome :=
   outcome_of has_default (spec_lookup d path m).
+
+(** ** the same on the compressed tree (Radix/Tree.v), as repository_impl.go does it:
+    [AddRuleSet] = Clone (the identity here), Add every route, swap only on success *)
+
+Fixpoint tree_add_all (t : tree rval) (l : list (addop rval)) : option (tree rval) :=
+  match l with
+  | [] => Some t
+  | a :: r =>
+    match tree_add same_src t (ao_expr a) (ao_val a) (ao_bt a) with
+    | TOk t' => tree_add_all t' r
+    | _ => None
+    end
+  end.
+
+Definition tree_add_ruleset (t : tree rval) (src : nat) (rs : list rule_def) : tree rval * bool :=
+  match tree_add_all t (ruleset_adds src rs) with
+  | Some t' => (t', true)
+  | None => (t, false)
+  end.
+
+(** [FindRule] on the tree as it is now (all three findNode repairs in) *)
+Definition tree_find_rule (t : tree rval) (has_default : bool) (path : str) (m : matcher rval) : outcome :=
+  outcome_of has_default (tree_find true true true m t path).
